@@ -279,6 +279,8 @@ def handle (op : String) (args impl : List String) : Option Reply :=
           let inRange (w : WireForm) : Bool :=
             decide (f32b lo ≤ f32b w.mono) && decide (f32b w.mono ≤ f32b hi)
           if (all.filter inRange).map toks != kept.map toks then "bad:range_filter" else
+          -- "each once": the database holds no two entries with the same sequence and modifications
+          if !nodupB (all.map toks) then "bad:form_listed_twice" else
           match allSome (all.map WireForm.toRat), ratMods varsV, ratMods staticsV with
           | some got, some varsQ, some staticsQ =>
             if varsQ.any (·.2 == 0) || staticsQ.any (·.2 == 0) then "na" else
@@ -357,6 +359,7 @@ def handle (op : String) (args impl : List String) : Option Reply :=
             decide (f32b lo ≤ f32b w.2.mono) && decide (f32b w.2.mono ≤ f32b hi)
           let tk (w : List Nat × WireForm) : List Nat := w.1.length :: w.1 ++ wireToks w.2
           if (all.filter inRange).map tk != kept.map tk then "bad:range_filter" else
+          if !nodupB (all.map tk) then "bad:form_listed_twice" else
           match ratMods varsV, ratMods staticsV with
           | some varsQ, some staticsQ =>
             if varsQ.any (·.2 == 0) || staticsQ.any (·.2 == 0) then "na" else
